@@ -5,7 +5,11 @@ use std::panic::{self, AssertUnwindSafe};
 use std::process::{Child, ChildStdin, ChildStdout, Command, Stdio};
 use std::time::Instant;
 
-pub const MODEL_EXE: &str = "/verif/lean/.lake/build/bin/trion-model";
+/// the compiled driver; `./check` passes its own location through TRION_MODEL_EXE
+pub fn model_exe() -> String
+{
+	std::env::var("TRION_MODEL_EXE").unwrap_or_else(|_| "/verif/lean/.lake/build/bin/trion-model".to_owned())
+}
 
 /// SplitMix64: every random choice of a run derives from one state seeded by VERIF_SEED.
 #[derive(Clone)]
@@ -42,8 +46,9 @@ impl Model
 {
 	pub fn spawn() -> Self
 	{
-		let mut child = Command::new(MODEL_EXE).stdin(Stdio::piped()).stdout(Stdio::piped()).spawn()
-			.unwrap_or_else(|e| panic!("cannot start the Lean model driver {MODEL_EXE}: {e} (run ./check --setup)"));
+		let exe = model_exe();
+		let mut child = Command::new(&exe).stdin(Stdio::piped()).stdout(Stdio::piped()).spawn()
+			.unwrap_or_else(|e| panic!("cannot start the Lean model driver {exe}: {e} (run ./check --setup)"));
 		let stdin = child.stdin.take();
 		let stdout = BufReader::new(child.stdout.take().unwrap());
 		Self{child, stdin, stdout, requests: 0}
